@@ -9,7 +9,7 @@ def run(chk):
         corr=[dict(name="backtrace(Model/VM.v + ghost call chain of Model/Backtrace.v run the real compiled code of generated fault programs, optimizer on and off alternating: output, failing position AND every backtrace position of the real error text must agree with RFail pos, the final bt and the ghost chain)",
                    cmd="c20-corr", stats="C20_corr_stats.json", n_quick=60, n_thorough=600)],
         system=[dict(name="error text vs expectation, optimizer off vs on, Go toolchain", cmd="c20-script", stats="C20_script_stats.json", n_quick=480, n_thorough=6000,
-                     what="generated call chains (depth 1..30; plain functions, methods via variable / literal / field, global and local lambdas, function-valued fields and parameters, variadic with and without spread, direct and mutual recursion; the call placed in 29 statement/expression positions: loops, for header clauses, range, if/else/else-if, if-init, switch tag/guard/arm, operands, arguments, literals, multi-line statements) with one planted fault of 21 kinds (integer division/modulo by zero, index out of range on slices and strings, slice bounds, nil map write, explicit panic, nil function value, nil pointer field read/write, negative make, panicking native) entered from main, init or a package-level initializer; the expected text (function and line of the fault, then calling function and line of every active call, innermost first) is computed by the generator from the line numbers it emits and compared with the default Load+Call text, the VM.Eval+Call text (chains entered from main), the hook text with the optimizer on and off, off vs on, and a second failing call on the same VM (no stale lines); output before the fault and the fact of a panic are compared with the Go toolchain; every fourth program writes calls of the chain over several lines (mismatch kind multiline-call when ONLY the line of such calls differs between the optimizer modes, both lines inside the call expression) and, in a quarter of those, the failing index/field operation over two lines (kind multiline-operation); a few goatlang-only faults (callback run by a native, missing return, wrong argument count) are checked against the expectation only; one host call of a missing function (no script position exists: the text must not invent one)")],
+                     what="generated call chains (depth 1..30; plain functions, methods via variable / literal / field, global and local lambdas, function-valued fields and parameters, variadic with and without spread, direct and mutual recursion; the call placed in 29 statement/expression positions: loops, for header clauses, range, if/else/else-if, if-init, switch tag/guard/arm, operands, arguments, literals, multi-line statements) with one planted fault of 22 kinds (integer division/modulo by zero, index out of range on slices and strings, slice bounds, nil map write, explicit panic, nil function value, nil pointer field read/write, negative make, panicking native) entered from main, init or a package-level initializer; the expected text (function and line of the fault, then calling function and line of every active call, innermost first) is computed by the generator from the line numbers it emits and compared with the default Load+Call text, the VM.Eval+Call text (chains entered from main), the hook text with the optimizer on and off, off vs on, and a second failing call on the same VM (no stale lines); output before the fault and the fact of a panic are compared with the Go toolchain; every fourth program writes calls of the chain over several lines and, in a quarter of those, the failing index/field/call operation over two lines: any (function, line) difference between the optimizer modes is a failing input (kind optimizer-mode; the nil-receiver call t.f(<newline>a), where GETATTR fails before the CALL whose position FASTCALLATTR carries, has the precise kind multiline-nilrecv-call); goatlang-only faults (missing return, wrong argument count: ordinary checks against the expectation; callback run by a native: kind native-callback); one host call of a missing function (no script position exists: the text must not invent one)")],
         assumptions=["objects outside the modelled fragment (maps, structs, host objects) do not write the VM's backtrace (hypotheses ext_set_bt / ext_getattr_bt / ext_setattr_bt: Value.Set, getIndex, setIndex receive no *VM)",
                      "'line of a call' for a call expression written over several lines: any line from the callee's first token to the closing parenthesis is accepted against the expectation; the two optimizer modes must still agree",
                      "columns and opcode names (CALL/FASTCALL, DIV/LOCALDIV) of the error text are not part of the property: they differ between optimizer modes by design and are counted, not compared",
